@@ -147,6 +147,40 @@ func c14Positions() []c14Pos {
 		{"constant fetch as parameter default", "function f($a = ", ") {}", "const", true, spConst},
 		{"constant fetch in a constant declaration", "const K = ", ";", "const", true, spConst},
 		{"constant fetch as array key", "$a = [", " => 1];", "const", true, spConst},
+		// references that are reached only through a particular child slot of another node
+		{"new as anonymous-class constructor argument", "new class(new ", ") {};", "class", false, spClass},
+		{"class constant as anonymous-class constructor argument", "new class(1, ", "::C) extends B {};", "class", false, spClass},
+		{"function call as anonymous-class constructor argument", "$o = new class(", "()) {};", "func", false, nil},
+		{"constant fetch as anonymous-class constructor argument", "$o = new class(", ") {};", "const", false, spConst},
+		{"new inside a closure body", "$f = function() { return new ", "; };", "class", true, spClass},
+		{"new inside an arrow function body", "$f = fn() => new ", ";", "class", false, spClass},
+		{"static call as method-call argument", "$o->m(1, ", "::f());", "class", true, spClass},
+		{"new as static-call argument", "A::m(new ", ");", "class", true, spClass},
+		{"constant fetch as array value", "$a = [1 => ", "];", "const", true, spConst},
+		{"constant fetch as list key", "list(", " => $a) = $b;", "const", false, spConst},
+		{"function call in a foreach subject", "foreach (", "() as $k => $v) {}", "func", true, nil},
+		{"new in a switch case", "switch ($a) { case 1: new ", "; }", "class", true, spClass},
+		{"instanceof in a while condition", "while ($x instanceof ", ") {}", "class", true, spClass},
+		{"class constant as property default", "class C { public $p = ", "::K; }", "class", true, spClass},
+		{"class constant as class-constant value", "class C { const K = ", "::K; }", "class", true, spClass},
+		{"constant fetch as static-variable default", "function f() { static $s = ", "; }", "const", true, spConst},
+		{"new in a finally block", "try {} finally { new ", "; }", "class", true, spClass},
+		{"function call in a do-while condition", "do {} while (", "());", "func", true, nil},
+		{"new in the third for expression", "for (;; new ", ") {}", "class", true, spClass},
+		{"static call in a declare block", "declare(ticks=1) { ", "::f(); }", "class", true, spClass},
+		{"new in an echo list", "echo 1, new ", ";", "class", true, spClass},
+		{"new as yield value", "function g() { yield 1 => new ", "; }", "class", true, spClass},
+		{"class constant in a ternary branch", "$a = $b ? 1 : ", "::C;", "class", true, spClass},
+		{"constant fetch right of ??", "$a = $b ?? ", ";", "const", false, spConst},
+		{"new as array item by reference holder", "$a = array(1, new ", ");", "class", true, spClass},
+		{"static property in isset", "isset(", "::$p);", "class", true, spClass},
+		{"static call in a return", "function g() { return ", "::f(); }", "class", true, spClass},
+		{"new in a throw", "throw new ", ";", "class", true, spClass},
+		{"static call as closure use-less body statement", "$f = function() { ", "::f(); };", "class", true, spClass},
+		{"parameter type of a closure inside a call", "f(function(", " $a) {});", "type", true, spType},
+		{"return type of an interface method", "interface J { function m(): ", "; }", "rtype", false, spRType},
+		{"parameter type of an abstract method", "abstract class C { abstract function m(", " $a); }", "type", true, spType},
+		{"catch inside a method", "class C { function m() { try {} catch (", " $e) {} } }", "class", true, nil},
 	}
 }
 
